@@ -54,6 +54,142 @@ func runC20(a *Analyzer, r *Results) {
 		}
 	}
 
+	// ---- W8.members: the signer list of a block proof has one entry per node of the proof, in order, unfiltered
+	{
+		id := "leanhelix.GetMemberIdsFromBlockProof"
+		fn := a.P.Func(id)
+		rets, und := a.Returns(id, nil)
+		r.Undecided = append(r.Undecided, und...)
+		bytesArg := Root(fn.Params[0].Name())
+		want := T("map", "", Call("protocol.NodesIterator", Call("protocol.BlockProofReader", bytesArg)), mid(bound))
+		n := 0
+		for _, e := range rets {
+			if len(e.Args) != 2 || e.Args[1].Key() != tNil.Key() {
+				continue
+			}
+			n++
+			got := e.Args[0]
+			r.Check("W8.members", props("C20", "C02"), "GetMemberIdsFromBlockProof returns the member id of every node entry of the proof, in order (no entry is skipped or rewritten)", "GetMemberIdsFromBlockProof", e.Pos(a), got.Key() == want.Key(), "returns "+PP(got), "D")
+		}
+		if n == 0 {
+			r.Undecided = append(r.Undecided, id+": no successful return found")
+		}
+	}
+
+	// ---- W5.guard / W5.fresh.ptr: a nested builder that is present only sometimes (phi of nil and a literal)
+	for _, f := range a.P.Funcs {
+		if isSpecTypesPkg(funcPkgPath(f)) {
+			continue
+		}
+		isBuilderPtr := func(t types.Type) bool {
+			p, ok := t.Underlying().(*types.Pointer)
+			if !ok {
+				return false
+			}
+			nt, ok := p.Elem().(*types.Named)
+			return ok && nt.Obj().Pkg() != nil && nt.Obj().Pkg().Path() == modPath+"/spec/types/go/protocol" && strings.HasSuffix(nt.Obj().Name(), "Builder")
+		}
+		li := a.Loops(f)
+		var fc *FCtx
+		for _, b := range f.Blocks {
+			for _, in := range b.Instrs {
+				st, ok := in.(*ssa.Store)
+				if !ok {
+					continue
+				}
+				fa, ok := st.Addr.(*ssa.FieldAddr)
+				if !ok || !isBuilderPtr(fa.X.Type()) || !isBuilderPtr(st.Val.Type()) {
+					continue
+				}
+				phi, ok := st.Val.(*ssa.Phi)
+				if !ok {
+					continue
+				}
+				if fc == nil {
+					fc = a.NewFCtx(f, a.EntryEnv(f, nil), 0)
+				}
+				label := shortName(f) + "|" + typeShort(fa.X.Type().Underlying().(*types.Pointer).Elem()) + "." + fieldName(fa.X.Type(), fa.Field)
+				// leaves of the phi
+				var allocs []*ssa.Alloc
+				carried := false
+				other := false
+				seen := map[ssa.Value]bool{}
+				l := li.Innermost(b)
+				var walk func(v ssa.Value)
+				walk = func(v ssa.Value) {
+					if seen[v] {
+						return
+					}
+					seen[v] = true
+					switch x := v.(type) {
+					case *ssa.Const:
+					case *ssa.Alloc:
+						allocs = append(allocs, x)
+					case *ssa.Phi:
+						if l != nil && x.Block() == l.Header {
+							carried = true
+							return
+						}
+						for _, e := range x.Edges {
+							walk(e)
+						}
+					default:
+						other = true
+					}
+				}
+				walk(phi)
+				why := ""
+				if carried {
+					why = "the nested builder can be one that was built for an earlier element of the loop (shared between elements)"
+				}
+				for _, al := range allocs {
+					if l != nil && !l.Body[al.Block()] {
+						why = "the nested builder is allocated outside the loop and shared between elements"
+					}
+				}
+				r.Check("W5.fresh.ptr", props("C20", "C11"), "an optional nested builder stored inside a loop is nil or a literal built in that same iteration (never one carried over from another element)", label, a.P.InstrPos(in), why == "", why, "D")
+				if other || len(allocs) == 0 {
+					continue
+				}
+				// guards of each literal: from its block up to the branch point that dominates the join
+				join := phi.Block()
+				for _, al := range allocs {
+					base := readerBase(a, fc, al, 0)
+					var conds []*Term
+					for blk := al.Block(); blk != nil && blk != join.Idom() && blk.Idom() != nil; blk = blk.Idom() {
+						d := blk.Idom()
+						if ifi, ok := d.Instrs[len(d.Instrs)-1].(*ssa.If); ok && !d.Dominates(join) || ok && d == join.Idom() {
+							conds = append(conds, fc.Term(ifi.Cond))
+						}
+						if d == join.Idom() {
+							break
+						}
+					}
+					why2 := ""
+					if base == nil {
+						why2 = "cannot identify the reader the nested literal copies from"
+					} else {
+						for _, ct := range conds {
+							rest := unsnap(ct).Subst(map[string]*Term{base.Key(): Const("R")})
+							rest.Walk(func(t *Term) {
+								switch t.Op {
+								case "root", "elem", "this", "phi", "unk", "param", "lookup", "index", "field", "global", "make":
+									if base.ContainsKey(t.Key()) {
+										return // part of the access path that leads to the reader
+									}
+									if why2 == "" {
+										why2 = "whether the nested builder is built depends on " + PP(t) + ", not only on the presence of " + PP(base)
+									}
+								}
+							})
+						}
+					}
+					r.Check("W5.guard", props("C20", "C09", "C11"), "an optional nested structure is re-encoded exactly when the source carries it: the test that guards building the nested literal depends only on the reader it copies from", label, a.P.InstrPos(al), why2 == "", why2, "D")
+				}
+			}
+		}
+	}
+
 	// ---- W5: field-copy completeness and name alignment of protocol builders in hand-written code
 	nLits := 0
 	allowUnset := map[string]string{
@@ -387,6 +523,75 @@ func runC20(a *Analyzer, r *Results) {
 }
 
 // diffTerms: first differing sub-term of two terms, for reports.
+// readerBase: the reader value a builder literal (and the literals nested in it) copies from: the largest sub-term
+// common to the receivers of all accessor calls that feed its fields.
+func readerBase(a *Analyzer, c *FCtx, al *ssa.Alloc, depth int) *Term {
+	var recvs []*Term
+	var collect func(al *ssa.Alloc, depth int)
+	collect = func(al *ssa.Alloc, depth int) {
+		if depth > 3 {
+			return
+		}
+		for _, ref := range *al.Referrers() {
+			fa, ok := ref.(*ssa.FieldAddr)
+			if !ok {
+				continue
+			}
+			for _, r2 := range *fa.Referrers() {
+				s2, ok := r2.(*ssa.Store)
+				if !ok || s2.Addr != fa {
+					continue
+				}
+				v := s2.Val
+				for {
+					if cv, ok := v.(*ssa.Convert); ok {
+						v = cv.X
+						continue
+					}
+					if ct, ok := v.(*ssa.ChangeType); ok {
+						v = ct.X
+						continue
+					}
+					break
+				}
+				switch x := v.(type) {
+				case *ssa.Alloc:
+					collect(x, depth+1)
+				case *ssa.Call:
+					if sc := x.Call.StaticCallee(); sc != nil && sc.Signature.Recv() != nil && funcPkgPath(sc) == modPath+"/spec/types/go/protocol" && len(x.Call.Args) > 0 {
+						recvs = append(recvs, c.Term(x.Call.Args[0]))
+					}
+				}
+			}
+		}
+	}
+	collect(al, depth)
+	if len(recvs) == 0 {
+		return nil
+	}
+	// common sub-terms
+	common := map[string]*Term{}
+	recvs[0].Walk(func(t *Term) {
+		if t.Op == "call" {
+			common[t.Key()] = t
+		}
+	})
+	for _, rt := range recvs[1:] {
+		for k := range common {
+			if !rt.ContainsKey(k) {
+				delete(common, k)
+			}
+		}
+	}
+	var best *Term
+	for _, t := range common {
+		if best == nil || len(t.Key()) > len(best.Key()) {
+			best = t
+		}
+	}
+	return best
+}
+
 func diffTerms(got, want *Term) string {
 	if got.Op != want.Op || got.Name != want.Name || len(got.Args) != len(want.Args) {
 		return "found " + clip(PP(got), 300) + " ; expected " + clip(PP(want), 300)
